@@ -476,6 +476,8 @@ SPECIAL = [
     # within a level only): what is a leaf must be decided by the level, never by the name
     ([[2], [3, 2]], 12, dict(flatten=False, drop_level=None, _collide=True)),
     ([[2], [2, 2], [2, 3, 2, 2]], 14, dict(flatten=False, drop_level=None, _collide=True)),
+    # no runner-up requested, split votes: an empty runner-up list does not mean a unanimous vote
+    ([[3], [2, 2, 2]], 9, dict(n_runners_up=0, bootstrap_factor=0.5, bootstrap_iteration=9, flatten=False, drop_level=None)),
 ]
 
 
